@@ -441,6 +441,15 @@ def _substitution(model: Model, Sr: RuleResult, N: RuleResult, fwd: FuncInfo, ca
                 out[s.name] = s
         return out
     B, O = assigns(br.body), assigns(br.orelse)
+    # "default, then override under the test" is the same decision as if/else: a definition that precedes the `if` in its block is the
+    # value on the path that skips the override
+    from ..model import parent as _parent
+    par_ = _parent(br)
+    for fld_ in ("body", "orelse", "finalbody"):
+        blk_ = getattr(par_, fld_, None)
+        if isinstance(blk_, list) and any(x is br for x in blk_):
+            before_ = assigns(blk_[:[i for i, x in enumerate(blk_) if x is br][0]])
+            O = {**before_, **O}
     fn, ln, un = (a.id if isinstance(a, ast.Name) else None for a in (a_f, a_l, a_u))
     if None in (fn, ln, un) or not all(k in B and k in O for k in (fn, ln, un)):
         raise AnalysisError("C12-S: the integrand/limits handed to the rule are not defined in both branches of the infinite-limit test")
